@@ -3,4 +3,5 @@ EXTENDS QBFTTimed
 InputsT == [p \in Honest |-> 1 + (p % 2)]
 OffsetsZero == [p \in Honest |-> 0]
 OffsetsLate == [p \in Honest |-> IF p = 0 THEN 3 ELSE IF p = 2 THEN 1 ELSE 0]      \* 750 ms, 250 ms late
+OffsetsLateLdr == [p \in Honest |-> IF p = (Inst + 1) % N THEN 3 ELSE IF p = 3 THEN 2 ELSE 0]   \* the round-1 leader 750 ms late
 ====
